@@ -35,6 +35,7 @@ structure Args where
   ignDrop     : Bool := false             -- --ignore-dropped
   scenarioKnown : Bool := true            -- the positional argument names a registered scenario
   wellFormed  : Bool := true              -- false: cobra/pflag itself rejects the line (unknown flag, arity, bad number)
+  gaussDerivable : Bool := true           -- oracle input for the gaussian mode, see `Plan.calcGaussian`
   deriving Repr
 
 /-- the run an accepted command line starts -/
@@ -77,7 +78,7 @@ def trigger (a : Args) (maxDur : Int) : Res (Int × Bool) :=
         fun i => .ok (i, false)
   else if a.mode = b_gaussian then
     (durFlag a.freq second).bind fun f => (durFlag a.stddev dfltStddev).bind fun sd =>
-      (calcGaussian f sd (a.weights.getD []) dist).bind fun i => .ok (i, false)
+      (calcGaussian f sd (a.weights.getD []) dist a.gaussDerivable).bind fun i => .ok (i, false)
   else if a.mode = b_users then .ok (0, true)
   else .err
 
